@@ -21,6 +21,7 @@ from vlib import tlc, tlaval, pool, fordrun, tree  # noqa: E402
 from vlib.verdict import Check, machinery_failure  # noqa: E402
 
 PROP = "C01"
+SLICES = ("decl", "unit", "type", "iface", "multi", "head")
 
 
 def K(s, up):
@@ -29,7 +30,45 @@ def K(s, up):
 
 
 # =============================================================== declaration slice
-INIT_TEXT = {"integer": "1", "real": "1.5", "complex": "(1.0, 2.0)", "logical": ".true.", "character": "'ab c'", "doubleprecision": "1.5d0"}
+INIT_TEXT = {"integer": "1", "real": "1.5", "complex": "(1.0, 2.0)", "logical": ".true.", "character": "'a,b  c'", "doubleprecision": "1.5d0"}
+ARRAY_ITEMS = {"integer": ["1", "2", "3"], "real": ["1.5", "2.5", "3.5"], "complex": ["(1.0, 2.0)", "(0.0, 1.0)", "(2.0, 0.0)"], "logical": [".true.", ".false.", ".true."],
+               "character": ["'a,b'", "'c d'", "'e''f'"], "doubleprecision": ["1.5d0", "2.5d0", "3.5d0"]}
+
+
+def array_text(base, ctor):
+    items = ", ".join(ARRAY_ITEMS[base])
+    return f"[{items}]" if ctor == "bracket" else f"(/ {items} /)"
+
+
+def relayout(src, layout):
+    """Lay out every line that has a comma outside character literals and comments as the case's spelling says."""
+    if layout == "plain":
+        return src
+    out = []
+    for line in src.split("\n"):
+        q, pos = None, -1
+        for i, ch in enumerate(line):
+            if q:
+                if ch == q:
+                    q = None
+            elif ch in "'\"":
+                q = ch
+            elif ch == "!":
+                break
+            elif ch == ",":
+                pos = i
+                break
+        if pos < 0 or not line.strip():
+            out.append(line)
+            continue
+        ind = " " * (len(line) - len(line.lstrip()) + 4)
+        head, tail = line[: pos + 1], line[pos + 1:].lstrip()
+        if layout == "cont":
+            out += [head + " &", ind + tail]
+        else:
+            out += [head + " &", "", ind + "! a comment line between the parts of one statement", ind + "& " + tail]
+    return "\n".join(out)
+
 
 
 def typespec(f, up):
@@ -56,7 +95,7 @@ def attr_text(a, up):
     return K(a, up)
 
 
-def render_decl(f, up):
+def render_decl(f, up, ctor="bracket"):
     """Returns (source, locator) for a declaration case."""
     name = "xv"
     dimtxt = {"none": "", "explicit": "(3)", "deferredshape": "(:)"}[f["dims"]]
@@ -72,6 +111,8 @@ def render_decl(f, up):
         init = " = " + INIT_TEXT[f["base"]]
     elif f["init"] == "null":
         init = " => null()"
+    elif f["init"] == "array":
+        init = " = " + array_text(f["base"], ctor)
     decl = typespec(f, up) + ("".join(", " + a for a in attrs)) + " :: " + ent + init
     extra = []
     if f["dimform"] == "stmt":
@@ -96,7 +137,7 @@ def render_decl(f, up):
     return "\n".join(body) + "\n", loc
 
 
-def expected_decl(f):
+def expected_decl(f, ctor="bracket"):
     b = f["base"]
     exp = {"name": "xv", "type": b, "kind": None, "len": None, "proto": None}
     if b in ("integer", "real", "complex", "logical") and f["kindsp"] != "none":
@@ -116,7 +157,10 @@ def expected_decl(f):
     exp["parameter"] = "parameter" in attrs
     exp["attribs"] = sorted(a for a in attrs if a not in ("optional", "parameter") and not a.startswith("intent_"))
     exp["dims"] = {"none": "", "explicit": "(3)", "deferredshape": "(:)"}[f["dims"]]
-    exp["initial"] = None if f["init"] == "none" else ("null()" if f["init"] == "null" else INIT_TEXT[b].replace(" ", ""))
+    exp["initial"] = None if f["init"] == "none" else ("null()" if f["init"] == "null" else INIT_TEXT[b])
+    if f["init"] == "array":
+        exp["initial"] = array_text(b, ctor)
+    exp["initial"] = tree._squash_code(exp["initial"])
     return exp
 
 
@@ -155,19 +199,18 @@ def observe_decl(src, loc):
 
 def eval_decl(case):
     f, up = case["facts"], case["spelling"]["upper"]
-    src, loc = render_decl(f, up)
+    src, loc = render_decl(f, up, case["spelling"].get("ctor", "bracket"))
+    src = relayout(src, case["spelling"].get("layout", "plain"))
     try:
         obs, err = observe_decl(src, loc)
     except Exception as ex:
         return [f"FORD failed: {type(ex).__name__}: {ex}"], src
     if err:
         return [err], src
-    exp = expected_decl(f)
+    exp = expected_decl(f, case["spelling"].get("ctor", "bracket"))
     bad = []
     for k, v in exp.items():
         got = obs.get(k)
-        if k == "initial" and got is not None:
-            got = got.replace(" ", "")
         if got != v:
             bad.append(f"{k}: declared {v!r}, FORD reports {got!r}")
     return bad, src
@@ -371,7 +414,7 @@ def render_type(f, sp):
 
 def eval_type(case):
     f, sp = case["facts"], case["spelling"]
-    src = render_type(f, sp)
+    src = relayout(render_type(f, sp), sp.get("layout", "plain"))
     try:
         p = fordrun.project({"case.f90": src})
     except Exception as ex:
@@ -476,7 +519,7 @@ def render_iface(f, sp):
 
 def eval_iface(case):
     f, sp = case["facts"], case["spelling"]
-    src = render_iface(f, sp)
+    src = relayout(render_iface(f, sp), sp.get("layout", "plain"))
     k, n = f["kind"], f["n"]
     try:
         p = fordrun.project({"case.f90": src})
@@ -534,7 +577,145 @@ def eval_iface(case):
     return bad, src
 
 
-EVAL = {"decl": eval_decl, "unit": eval_unit, "type": eval_type, "iface": eval_iface}
+# =============================================================== multi-entity declarations
+MULTI_INIT = {"integer": "7", "real": "2.5", "character": "'a,b  c'"}
+
+
+def render_multi(f, sp):
+    up, tight, dc = sp["upper"], sp["tight"], sp["dcolon"]
+    b = f["base"]
+    ts = K(b, up)
+    if f["typelen"] == "kind":
+        ts += ({"integer": "(8)", "real": f"({K('kind', up)}=8)", "character": f"({K('len', up)}=10)"}[b])
+    attrs = [f"{K('dimension', up)}(4)"] if f["attrdim"] != "none" else []
+    names = []
+    for i, e in enumerate(f["ents"]):
+        t = f"v{i}" + {"none": "", "d3": "(3)", "d22": "(2,2)" if tight else "(2, 2)"}[e["dims"]]
+        if e["clen"] == "star5":
+            t += "*5"
+        if e["init"] == "value":
+            t += (" = " if not tight else "=") + MULTI_INIT[b]
+        names.append(t)
+    sep = "," if tight else ", "
+    decl = ts + "".join(", " + a for a in attrs) + (" :: " if dc else " ") + sep.join(names)
+    return "module m\n  implicit none\n  " + decl + "\nend module m\n"
+
+
+def eval_multi(case):
+    f, sp = case["facts"], case["spelling"]
+    src = relayout(render_multi(f, sp), sp.get("layout", "plain"))
+    try:
+        p = fordrun.project({"case.f90": src})
+    except Exception as ex:
+        return [f"FORD failed: {type(ex).__name__}: {ex}"], src
+    if not p.modules:
+        return ["module m not reported (file rejected)"], src
+    t = tree.unit(p.modules[0], "module")
+    got = t["variables"]
+    want_names = [f"v{i}" for i in range(len(f["ents"]))]
+    if [v["name"] for v in got] != want_names:
+        return [f"variables: declared {want_names}, reported {[v['name'] for v in got]}"], src
+    bad = []
+    b = f["base"]
+    for v, e in zip(got, f["ents"]):
+        exp = {"type": b, "kind": None, "len": None,
+               "dims": {"none": "(4)" if f["attrdim"] != "none" else "", "d3": "(3)", "d22": "(2,2)"}[e["dims"]],
+               "initial": tree._squash_code(MULTI_INIT[b]) if e["init"] == "value" else None}
+        if b == "character":
+            exp["len"] = "5" if e["clen"] == "star5" else ("10" if f["typelen"] == "kind" else "1")
+        elif f["typelen"] == "kind":
+            exp["kind"] = "8"
+        for k, w in exp.items():
+            g = v.get(k)
+            if g != w:
+                bad.append(f"{v['name']}.{k}: declared {w!r}, FORD reports {g!r}")
+    return bad, src
+
+
+# =============================================================== procedure headings
+RES_SPELL = {"integer": ("integer", {"type": "integer"}), "realparen": ("real(8)", {"type": "real", "kind": "8"}), "realstar": ("real*8", {"type": "real", "kind": "8"}),
+             "realkind": ("real(kind=8)", {"type": "real", "kind": "8"}), "double": ("double precision", {"type": "doubleprecision"}),
+             "char5": ("character(len=5)", {"type": "character", "len": "5"}), "charstar": ("character*7", {"type": "character", "len": "7"}),
+             "charlenkind": ("character(len=5, kind=1)", {"type": "character", "len": "5", "kind": "1"}), "typet": ("type(tt)", {"type": "type", "proto": "tt"}),
+             "logical": ("logical", {"type": "logical"})}
+
+
+def render_head(f, sp):
+    up, tf = sp["upper"], sp["typefirst"]
+    kind = f["kind"]
+    pre = [K(x, up) for x in sorted(f["prefix"])]
+    args = ["aa"][: f["nargs"]]
+    arglist = f"({', '.join(args)})" if (args or kind == "function" or f["bindc"] != "none") else ""
+    words = list(pre)
+    inner = []
+    if kind == "function" and f["restype"] != "decl":
+        rs = RES_SPELL[f["restype"]][0]
+        rs = rs.upper() if up else rs
+        rs = rs.replace("TT", "tt")
+        words = ([rs] + words) if tf else (words + [rs])
+    head = " ".join(words + [K(kind, up), "pp" + arglist])
+    rname = "pp"
+    if kind == "function" and f["resclause"]:
+        head += f" {K('result', up)}(rr)"
+        rname = "rr"
+    if f["bindc"] == "plain":
+        head += f" {K('bind', up)}(c)"
+    elif f["bindc"] == "named":
+        head += f" {K('bind', up)}(c, {K('name', up)}=\"c_pp\")"
+    if kind == "function" and f["restype"] == "decl":
+        inner.append(f"integer :: {rname}")
+    inner += [f"real :: {a}" for a in args]
+    L = ["module m", "  implicit none", "  type :: tt", "    integer :: i", "  end type tt", "contains", "  " + head] + ["    " + x for x in inner] + [f"  {K('end ' + kind, up)} pp", "end module m"]
+    return "\n".join(L) + "\n"
+
+
+def eval_head(case):
+    f, sp = case["facts"], case["spelling"]
+    src = relayout(render_head(f, sp), sp.get("layout", "plain"))
+    try:
+        p = fordrun.project({"case.f90": src})
+    except Exception as ex:
+        return [f"FORD failed: {type(ex).__name__}: {ex}"], src
+    if not p.modules:
+        return ["module m not reported (file rejected)"], src
+    t = tree.unit(p.modules[0], "module")
+    procs = t["procedures"]
+    if [x["name"] for x in procs] != ["pp"]:
+        return [f"procedures: declared ['pp'], reported {[x['name'] for x in procs]}"], src
+    u = procs[0]
+    bad = []
+    if u["proctype"] != f["kind"]:
+        bad.append(f"kind: declared {f['kind']}, reported {u['proctype']}")
+    if sorted(u["attribs"]) != sorted(f["prefix"]):
+        bad.append(f"prefixes: declared {sorted(f['prefix'])}, reported {u['attribs']}")
+    if [a["name"] for a in u["args"]] != ["aa"][: f["nargs"]]:
+        bad.append(f"arguments: declared {['aa'][: f['nargs']]}, reported {[a['name'] for a in u['args']]}")
+    for a in u["args"]:
+        if a.get("type") != "real":
+            bad.append(f"argument {a['name']}: declared real, reported {a.get('type')}")
+    wantb = {"none": None, "plain": "c", "named": 'c,name="c_pp"'}[f["bindc"]]
+    gotb = u["bindC"]
+    if (gotb or None) != wantb:
+        bad.append(f"bind: declared {wantb!r}, reported {gotb!r}")
+    if f["kind"] == "function":
+        r = u.get("result") or {}
+        wantname = "rr" if f["resclause"] else "pp"
+        if r.get("name") != wantname:
+            bad.append(f"result: declared {wantname}, reported {r.get('name')}")
+        exp = {"type": "integer", "kind": None, "len": None, "proto": None}
+        if f["restype"] != "decl":
+            exp.update(RES_SPELL[f["restype"]][1])
+        if exp["type"] == "character" and exp["len"] is None:
+            exp["len"] = "1"
+        for k, w in exp.items():
+            if r.get(k) != w:
+                bad.append(f"result.{k}: declared {w!r}, FORD reports {r.get(k)!r}")
+    if u.get("variables"):
+        bad.append(f"local variables {[v['name'] for v in u['variables']]} reported, none declared beyond arguments / result")
+    return bad, src
+
+
+EVAL = {"decl": eval_decl, "unit": eval_unit, "type": eval_type, "iface": eval_iface, "multi": eval_multi, "head": eval_head}
 
 
 def evaluate(case):
@@ -574,7 +755,7 @@ def run(tier, seed, ck: Check):
         mod, cfg = tlc.make_model(scratch, "Program", {"Slice": "decl"}, name="MCvac", spec="Spec", invariants=["NeverStmtForm"])
         if tlc.run(mod, cfg, workers=4, timeout=600).ok:
             raise tlc.TLCFailure("vacuity guard NeverStmtForm not violated")
-        for sl in ("decl", "unit", "type", "iface"):
+        for sl in SLICES:
             mod, cfg = tlc.make_model(scratch, "Program", {"Slice": sl}, name=f"MC{sl}", spec="Spec", invariants=["SpellingIndependence"])
             dump = os.path.join(scratch, f"gen{sl}")
             r = tlc.run(mod, cfg, workers=16, dump=dump, timeout=1800)
@@ -592,7 +773,7 @@ def run(tier, seed, ck: Check):
         keep = []
         for c in cases:
             h = zlib.crc32(json.dumps(c, sort_keys=True).encode())
-            div = {"decl": 6, "unit": 3, "type": 4, "iface": 1}[c["slice"]]
+            div = {"decl": 24, "unit": 3, "type": 12, "iface": 1, "multi": 6, "head": 3}[c["slice"]]
             if h % div == seed % div:
                 keep.append(c)
         cases = keep
@@ -604,16 +785,17 @@ def run(tier, seed, ck: Check):
                 continue
             ck.violation(c["slice"], {"slice": c["slice"], "facts": c["facts"], "spelling": c["spelling"]}, detail=f"[{c['slice']}] {b}", extra={"source": r_["src"]})
     ck.coverage["traces_validated_against_impl"] = 0
-    for sl in ("decl", "unit", "type", "iface"):
+    rend = {"decl": lambda c: relayout(render_decl(c["facts"], c["spelling"]["upper"], c["spelling"].get("ctor", "bracket"))[0], c["spelling"].get("layout", "plain")), "unit": lambda c: render_unit(c["facts"], c["spelling"])["case.f90"],
+            "type": lambda c: render_type(c["facts"], c["spelling"]), "iface": lambda c: render_iface(c["facts"], c["spelling"]),
+            "multi": lambda c: render_multi(c["facts"], c["spelling"]), "head": lambda c: render_head(c["facts"], c["spelling"])}
+    for sl in SLICES:
         ex = next((c for c in cases if c["slice"] == sl), None)
         if ex:
-            src = {"decl": lambda c: render_decl(c["facts"], c["spelling"]["upper"])[0], "unit": lambda c: render_unit(c["facts"], c["spelling"])["case.f90"],
-                   "type": lambda c: render_type(c["facts"], c["spelling"]), "iface": lambda c: render_iface(c["facts"], c["spelling"])}[sl](ex)
-            ck.sample({"slice": sl, "facts": ex["facts"], "spelling": ex["spelling"], "source": src})
+            ck.sample({"slice": sl, "facts": ex["facts"], "spelling": ex["spelling"], "source": rend[sl](ex)}, limit=len(SLICES))
     ck.assumptions += [
         "generated constructs are valid Fortran of the supported subset (well-formedness is the enabling condition in spec/Program.tla); implicit typing only for undeclared dummy arguments",
         "kind value 8 / length 10 are used for every spelling of a kind / length parameter, so equivalent spellings have one expected value",
-        "type keywords compared lower-case with blanks removed (double precision = doubleprecision); blanks inside initial values are not significant",
+        "type keywords compared lower-case with blanks removed (double precision = doubleprecision); blanks outside character literals are not significant in initial values, blanks inside them are",
     ]
 
 
